@@ -855,7 +855,7 @@ static void marshal_to (DBusMessage *m, OutBuf *o) { ob_reset (o); marshal_hex (
 /* OOMEDIT <hex> <op> : every failing-allocation index of one header edit */
 static void cmd_oomedit (int argc, char **argv)
 {
-  size_t n; unsigned char *buf; OutBuf pre = { 0 }, post = { 0 }, want = { 0 }; int k, bad = 0, nfail = 0, cold, total = 0; char first[200] = "-";
+  size_t n; unsigned char *buf; OutBuf pre = { 0 }, post = { 0 }, want = { 0 }, chg = { 0 }; int k, bad = 0, nfail = 0, cold, total = 0, nchg = 0; char first[200] = "-";
   DBusMessageLoader *l; DBusMessage *m;
   if (argc < 3 || !(buf = unhex (argv[1], &n))) { ob_puts (&out, "ERR badargs"); return; }
   m = load_msg (buf, n, &l);
@@ -890,7 +890,12 @@ static void cmd_oomedit (int argc, char **argv)
         {
           nfail++;
           marshal_to (m, &post);
-          if (post.len != pre.len || memcmp (post.s, pre.s, pre.len)) { if (!bad++) { snprintf (first, sizeof first, "k=%d%s:failed-edit-changed-message", k, cold ? "c" : ""); fprintf (stderr, "PRE  %s\nPOST %s\n", pre.s, post.s); } }
+          if (post.len != pre.len || memcmp (post.s, pre.s, pre.len))
+            {
+              if (!bad++) { snprintf (first, sizeof first, "k=%d%s:failed-edit-changed-message", k, cold ? "c" : ""); fprintf (stderr, "PRE  %s\nPOST %s\n", pre.s, post.s); }
+              /* the distinct messages left behind by failed edits (at most 6), for oracles that allow some change */
+              if (nchg < 6 && (!chg.len || !strstr (chg.s, post.s))) { ob_printf (&chg, "%s%d%s:%s", chg.len ? "," : "", k, cold ? "c" : "", post.s); nchg++; }
+            }
           if (apply_edit (m, argv[2]) != 1) { if (!bad++) snprintf (first, sizeof first, "k=%d%s:retry-failed", k, cold ? "c" : ""); }
         }
       marshal_to (m, &post);
@@ -901,8 +906,8 @@ static void cmd_oomedit (int argc, char **argv)
       if (cold) for (hi = 0; hi < 6; hi++) if (hold[hi]) dbus_message_unref (hold[hi]);
     }
   k = total;
-  ob_printf (&out, "OK indices=%d reported_failure=%d bad=%d first=%s", k, nfail, bad, first);
-  free (pre.s); free (post.s); free (want.s); free (buf);
+  ob_printf (&out, "OK indices=%d reported_failure=%d bad=%d first=%s changed=%s", k, nfail, bad, first, chg.len ? chg.s : "-");
+  free (pre.s); free (post.s); free (want.s); free (chg.s); free (buf);
 }
 
 /* OOMCOPY <hex> */
